@@ -479,7 +479,8 @@ def step (c : C) (i : In) : C :=
   else
     let c1 := stepLive c i
     match i with
-    | .dropRef | .destroy _ => if c1.dead then c1 else reap c1
+    -- `holdRef` replaces the reference the user held before (if any)
+    | .dropRef | .destroy _ | .holdRef => if c1.dead then c1 else reap c1
     | _ => c1
 
 def run (c : C) (ins : List In) : C := ins.foldl step c
